@@ -48,7 +48,7 @@ def one(rng, crop, soil, method, i):
         c["kw"]["SwitchGDD"] = 1        # documented switch: convert the calendar-day crop to thermal time
         c["harvest"] = None
     w = gen.weather_spec(rng, crop, hostile=gen.chance(rng, 0.3), p_file=0.35)
-    if not thermal and not c["kw"].get("SwitchGDD") and gen.chance(rng, 0.04):
+    if not thermal and not c["kw"].get("SwitchGDD") and (gen.chance(rng, 0.04) or (i % 6 == 0 and float(cat[crop].get("dHI_pre", 0) or 0) > 0)):
         # a place where the crop cannot grow at all: the run still has to finish with finite numbers
         w = {"kind": "synth", "seed": int(rng.integers(0, 2 ** 31 - 1)), "regime": "polar"}
     span = gen.W.file_span(w["name"]) if w["kind"] == "file" else None
